@@ -82,3 +82,27 @@ pub assume_specification<'a> [<http::Uri as PartialEq<&'a str>>::eq] (u: &http::
     ensures r == uri_is_str(*u, s@);
 pub assume_specification [<http::Uri as Clone>::clone] (u: &http::Uri) -> (r: http::Uri)
     ensures r == *u;
+
+// ---- tower / tower-http body limit layer (C15). Assumed: the layer built by RequestBodyLimitLayer::new(n) carries n through
+//      ServiceBuilder::layer and clone; tower_http::limit answers 413 for a declared Content-Length > n before the service runs
+//      and makes the Limited body fail (collect() -> Err) once more than n bytes arrive; bodies <= n pass unchanged. ----
+#[verifier::external_type_specification] #[verifier::external_body]
+pub struct ExLimitLayer(tower_http::limit::RequestBodyLimitLayer);
+#[verifier::external_type_specification] #[verifier::external_body]
+pub struct ExIdentity(tower::layer::util::Identity);
+#[verifier::external_type_specification] #[verifier::external_body] #[verifier::reject_recursive_types(A)] #[verifier::reject_recursive_types(B)]
+pub struct ExStack<A, B>(tower::layer::util::Stack<A, B>);
+#[verifier::external_type_specification] #[verifier::external_body] #[verifier::reject_recursive_types(L)]
+pub struct ExServiceBuilder<L>(tower::ServiceBuilder<L>);
+pub uninterp spec fn layer_limit(l: tower_http::limit::RequestBodyLimitLayer) -> usize;
+pub uninterp spec fn sb_limit<L>(s: tower::ServiceBuilder<L>) -> usize;
+pub uninterp spec fn any_limit<T>(t: T) -> usize;
+#[verifier::external_body]
+pub broadcast proof fn axiom_any_limit(t: tower_http::limit::RequestBodyLimitLayer) ensures #[trigger] any_limit::<tower_http::limit::RequestBodyLimitLayer>(t) == layer_limit(t) {}
+pub assume_specification [tower_http::limit::RequestBodyLimitLayer::new] (n: usize) -> (r: tower_http::limit::RequestBodyLimitLayer)
+    ensures layer_limit(r) == n;
+pub assume_specification [tower::ServiceBuilder::<tower::layer::util::Identity>::new] () -> (r: tower::ServiceBuilder<tower::layer::util::Identity>);
+pub assume_specification<L, T> [tower::ServiceBuilder::<L>::layer::<T>] (s: tower::ServiceBuilder<L>, t: T) -> (r: tower::ServiceBuilder<tower::layer::util::Stack<T, L>>)
+    ensures sb_limit(r) == any_limit(t);
+pub assume_specification<L: Clone> [<tower::ServiceBuilder<L> as Clone>::clone] (s: &tower::ServiceBuilder<L>) -> (r: tower::ServiceBuilder<L>)
+    ensures sb_limit(r) == sb_limit(*s);
